@@ -175,6 +175,9 @@ inline std::vector<Abstract> seed_grammars()
     add("unit-unused", 5, {mk(0, {N(1)}), mk(1, {N(2)}), mk(2, {T(0)}), mk(2, {T(1), N(0), T(2)}), mk(4, {T(3), N(4)}), mk(4, {T(3)})});
     // nullable prefix before a left-recursive list (lookahead propagation through empty rules)
     add("nullable-prefix", 4, {mk(0, {N(1), N(2)}), mk(1, {}), mk(1, {T(0)}), mk(2, {N(2), T(1), N(3)}), mk(2, {N(3)}), mk(3, {T(2)}), mk(3, {T(0), T(2)})});
+    // many nullable symbols in front of one token (deep stack per input character)
+    add("nullable-ladder2", 6, {mk(0, {N(1), N(2)}), mk(2, {N(1), N(3)}), mk(3, {N(1), N(4)}), mk(4, {N(1), N(5)}), mk(5, {N(1), T(0)}), mk(1, {})});
+    add("nullable-ladder4", 4, {mk(0, {N(1), N(1), N(1), N(2)}), mk(2, {N(1), N(1), N(1), N(3)}), mk(3, {N(1), T(0)}), mk(1, {})});
     // palindromic-like nesting
     add("nesting", 2, {mk(0, {T(0), N(0), T(1)}), mk(0, {T(0), N(1), T(1)}), mk(1, {T(2)}), mk(1, {T(2), N(1)})});
     return v;
